@@ -12,6 +12,7 @@ import (
 	"github.com/NVIDIA/KAI-scheduler/pkg/scheduler/framework"
 
 	"verif/harness/internal/gen"
+	"verif/harness/internal/mon"
 	"verif/harness/internal/oracle"
 	"verif/harness/internal/run"
 	"verif/harness/internal/sched"
@@ -38,6 +39,11 @@ type SchedCheck struct {
 	AfterCase   func(c *spec.Case, hist []CycleRecord, st *oracle.Stats) []run.Violation
 	LevelName   string
 	TimeoutCase time.Duration
+	// NewMonitor, if set, attaches an online monitor (internal/mon) to every cycle; its findings for
+	// property Id become violations and its statistics are merged into the counters.
+	NewMonitor func() *mon.Monitor
+	// NonTrivialFromStats decides non-triviality from the merged counters (optional).
+	NonTrivialFromStats func(counters map[string]int) bool
 }
 
 // CycleRecord is kept for replay files and history oracles.
@@ -114,6 +120,13 @@ func (s *SchedCheck) RunGenerated(c *spec.Case, env *run.Env) run.CaseResult {
 	if s.Hooks != nil {
 		hooks = s.Hooks(c, &viols, stats)
 	}
+	var monitor *mon.Monitor
+	if s.NewMonitor != nil {
+		monitor = s.NewMonitor()
+		mon.Cur = monitor
+		hooks = monitor.Hooks()
+		defer func() { mon.Cur = nil }()
+	}
 	rng := gen.NewRand(c.Seed, c.Index, 2)
 	r, err := sched.NewRunner(st, c, rng, hooks)
 	if err != nil {
@@ -150,6 +163,21 @@ func (s *SchedCheck) RunGenerated(c *spec.Case, env *run.Env) run.CaseResult {
 	}
 	if s.AfterCase != nil {
 		viols = append(viols, s.AfterCase(c, hist, stats)...)
+	}
+	if monitor != nil {
+		for _, f := range monitor.Findings {
+			if f.Prop == s.Id {
+				viols = append(viols, run.Violation{Property: f.Prop, Oracle: f.Oracle, Sig: f.Sig, Msg: f.Msg})
+			} else {
+				stats.Inc("other_property_findings_" + f.Prop)
+			}
+		}
+		for k, v := range monitor.Stats {
+			stats.Add(k, v)
+		}
+	}
+	if s.NonTrivialFromStats != nil && s.NonTrivialFromStats(stats.Counters) {
+		stats.NonTrivial = true
 	}
 	res.Counters = stats.Counters
 	res.NonTrivial = stats.NonTrivial
